@@ -245,6 +245,12 @@ def result_size(res):
     return int(res[1].size) if res[0] == 'ok' else 1
 
 
+def case_size(c, res):
+    """largest array (operand or result) the Coq evaluation of the case has to build"""
+    ops = [int(np.prod(s, dtype=np.int64)) for s, _ in generic_operands(c)] if c['fn'] not in ('equiv', 'remap') else [4 ** c['N']]
+    return max([result_size(res)] + ops)
+
+
 # ------------------------------------------------------------------ property-level predicates
 def factors(D, lead, k0):
     return [ar(tuple(lead) + tuple(d), OFFS[k0 + k]) for k, d in enumerate(D)]
@@ -538,11 +544,11 @@ def run_cases(ctx, cases, cap, do_prop=True):
             failures.append(dict(kind='corr', observable='%s exception class' % c['fn'], signature='c16-corr-exception',
                                  detail='implementation raised %s, which the model does not know' % res[1], input=c))
             continue
-        if result_size(res) > cap:
+        if case_size(c, res) > cap:
             n_skipped += 1
             continue
         defs.append(('c%d' % i, 'Definition c%d : N*N*N := %s.' % (i, coq_term(c, res))))
-        sizes.append(result_size(res) + 50)
+        sizes.append(case_size(c, res) + 50)
         idxs.append(i)
     order, per = balanced(defs, sizes, 400)
     defs = [defs[j] for j in order]
